@@ -118,6 +118,12 @@ def run_history(ctx, mr, cfg, closes, nodes_cache):
                 observed.append((hn, res))
                 # property oracle
                 want = expect(kind, closefd, hn, closed_names, chain)
+                if want == 'VE' and kind in ('w_ctr', 'w_twl', 'w_cbc', 'w_ctr_win') and hn == 'handle:wrapper':
+                    size0 = len(sc.base.getvalue()) if not sc.base.closed else None
+                    res = dict(res, **{u: CC.use(h, u) for u in CC.CLOSED_ONLY_USES})
+                    if size0 is not None and not sc.base.closed and len(sc.base.getvalue()) != size0:
+                        ctx.diff('oracle', f'use-after-close:{kind}:{hn}:truncate-reached-file', dict(caseinfo, handle=hn, use='truncate'), size0, len(sc.base.getvalue()),
+                                 f'{kind}/{source}/closefd={closefd}: truncate() on the closed wrapper changed the caller\'s file')
                 for u, r in res.items():
                     if want == 'VE' and r != 'VE':
                         ctx.diff('oracle', f'use-after-close:{kind}:{hn}:{u}', dict(caseinfo, handle=hn, use=u), 'ValueError', r,
